@@ -30,6 +30,7 @@ from common import Violation, sexp, Atom, parse_sexp, StrTok
 
 TITLE = "output conversions"
 LEVEL = "proof"
+DOMAINS = ['Out']
 
 FNAMES = ["color", "word", "task", "resp", "dir", "size", "f 1", "Kind"]
 LNAMES = ["red", "blue", "green", "x", "y", "z", "left", "right", "up", "a b", "1", "2", "café", "lo,hi",
@@ -41,8 +42,9 @@ WEIRD = ["", " ", "a,b", 'say "hi"', "x;y", "αβ", "tab\tbed", "'", "0", "-3", 
 
 def gen_spec(rng):
     """A JSON-serialisable description of a block built with the public API
-    (crossing size, weights included, at most 12: RandomGen gets very slow on
-    larger weighted crossings, which is not this property's business)."""
+    (crossing size, weights included, at most 12, and at most 8 for RandomGen
+    with weights in the crossing: RandomGen needs minutes on larger weighted
+    crossings, which is not this property's business)."""
     while True:
         spec = gen_spec1(rng)
         size = 1
@@ -51,8 +53,12 @@ def gen_spec(rng):
                 size *= sum(f["weights"])
         if spec["derived"] and spec["derived"]["name"] in spec["crossing"]:
             size *= 2
-        if size <= 12:
-            return spec
+        if size > 12:
+            continue
+        weighted_crossing = any(w > 1 for f in spec["simple"] if f["name"] in spec["crossing"] for w in f["weights"])
+        if weighted_crossing and size > 8:
+            spec["gen"] = "IterateSATGen"
+        return spec
 
 
 def gen_spec1(rng):
@@ -194,7 +200,7 @@ def synthesize(spec):
     block.sample_continuous = cont
     random.seed(spec["seed"])
     gen = getattr(sweetpea, spec["gen"])
-    with time_limit(20):
+    with time_limit(8):
         ex = quiet(synthesize_trials, block, spec["samples"], gen)
     del block.add_implied_levels
     del block.sample_continuous
@@ -443,6 +449,8 @@ def check_outputs(names, cont_names, exps, tuples, dicts, csvs):
                 if list(rows) != want:
                     got = list(rows[0].keys()) if rows else []
                     sig, why = classify(got)
+                    if sorted(got) == sorted(names):
+                        sig, why = "other", "keys right, %d rows for %d trials or cells differ" % (len(rows), len(want))
                     bad.append((sig + ":dicts" if sig == "other" else sig,
                                 "experiments_to_dicts: experiment %d: %s; first row %r, expected %r" % (
                                     ei, why, rows[:1], want[:1])))
@@ -457,7 +465,7 @@ def check_outputs(names, cont_names, exps, tuples, dicts, csvs):
             if hdr != list(names) or rows != want_rows:
                 sig, why = classify(list(hdr or []))
                 if hdr == list(names):
-                    sig, why = "other", "header right, cells differ"
+                    sig, why = "other", "header right, %d rows for %d trials or cells differ" % (len(rows), len(want_rows))
                 bad.append((sig + ":csv" if sig == "other" else sig,
                             "save_experiments_csv: experiment %d: %s; header %r, first rows %r, expected %r" % (
                                 ei, why, hdr, rows[:2], want_rows[:2])))
@@ -485,10 +493,10 @@ def spec_size(spec):
 
 # --------------------------------------------------------------------------- run
 
-def eval_block_case(spec, tmp, tag, arbitrary_rng=None):
+def eval_block_case(spec, tmp, tag, arbitrary_rng=None, syn=None):
     """Real side of one block case.  Returns a dict with everything observed."""
     from sweetpea import experiments_to_tuples, experiments_to_dicts, save_experiments_csv
-    block, objs, ex, rec = synthesize(spec)
+    block, objs, ex, rec = syn if syn is not None else synthesize(spec)
     names = declared_names(spec)
     if arbitrary_rng is not None:
         exps = gen_rect_exps(arbitrary_rng, names, hidden_ok=False)
@@ -532,7 +540,8 @@ def _run(ctx, res, rng, nblocks, nraw, tmp):
     expect = []        # (layer, real canonical value, case id)
     mism = []
     found = {}         # sig -> (size, what, replay)
-    stats = {"synth_failed": 0, "synth_failures": {}, "hidden": 0, "continuous": 0, "derived": 0, "derived_dup": 0, "unsupported": 0}
+    stats = {"synth_failed": 0, "synth_failures": {}, "hidden": 0, "continuous": 0, "derived": 0, "derived_dup": 0, "unsupported": 0,
+             "raw_outcomes": {}}
 
     def note(sig, what, replay, size):
         if sig not in found or size < found[sig][0]:
@@ -542,11 +551,13 @@ def _run(ctx, res, rng, nblocks, nraw, tmp):
         spec = gen_spec(rng)
         arb_seed = rng.randint(0, 10 ** 9)
         try:
-            real = eval_block_case(spec, tmp, "b%d" % bi)
-            arb = eval_block_case(spec, tmp, "a%d" % bi, arbitrary_rng=random.Random(arb_seed))
+            syn = synthesize(spec)
+            real = eval_block_case(spec, tmp, "b%d" % bi, syn=syn)
+            arb = eval_block_case(spec, tmp, "a%d" % bi, arbitrary_rng=random.Random(arb_seed), syn=syn)
         except Exception as e:  # noqa  (construction / synthesis failures belong to C08/C15)
             stats["synth_failed"] += 1
             stats["synth_failures"][type(e).__name__] = stats["synth_failures"].get(type(e).__name__, 0) + 1
+            stats.setdefault("synth_failure_example", "%s: %s" % (type(e).__name__, describe(spec)))
             res.count(None, nontrivial=False)
             continue
         hidden = any(k[0] == "h" for k in real["design"])
@@ -610,6 +621,9 @@ def _run(ctx, res, rng, nblocks, nraw, tmp):
         expect.append(("raw-dicts", real_dicts(spmain._experiments_to_dicts, exps, keys), ri))
         lines.append(sexp([Atom("csv"), wkeys, wex]))
         expect.append(("raw-csv", real_csv(tmp, "r%d" % ri, len(exps), spmain._experiments_to_csv, exps, keys), ri))
+        for lay, r, _ in expect[-3:]:
+            key = lay + ":" + (r[1] if r[0] == "error" else "ok")
+            stats["raw_outcomes"][key] = stats["raw_outcomes"].get(key, 0) + 1
         if ri < 2:
             res.sample({"raw keys": keys, "experiments": [[(repr(k) if not isinstance(k, str) else k, v)
                                                            for k, v in e.items()] for e in exps][:1]})
